@@ -81,6 +81,32 @@ func genC15(r *h.Rand, tier string) []h.Case {
 				cs = append(cs, h.Case{Stream: "resolve", Cmd: sx.L(sx.A("resolve"), sx.S(name), sx.S(sib)), Meta: sx.L(sx.A(via)), NonTrivial: nt, Tags: []string{via}})
 			}
 		}
+		if i%10 == 3 {
+			// several lookups on one Set; among them pairs whose directory and name concatenate to the same
+			// string although they are different templates ("/blog" + "post.jet" and "/" + "blogpost.jet")
+			cmd := sx.L(sx.A("resolve-seq"), sx.Bool(r.Chance(40)))
+			k := 2 + r.Intn(4)
+			w1, w2 := r.Pick([]string{"blog", "a", "dir", "é"}), r.Pick([]string{"post.jet", "b.jet", "x", "b"})
+			for j := 0; j < k; j++ {
+				var nm, sib string
+				via := r.Pick([]string{"include", "extends", "import", "include-computed", "gettemplate"})
+				switch r.Intn(4) {
+				case 0:
+					nm, sib = w2, "/"+w1+"/h"+strconv.Itoa(j)+".jet"
+				case 1:
+					nm, sib = w1+w2, "/g"+strconv.Itoa(j)+".jet"
+				case 2:
+					nm, sib = w1+"/"+w2, "/g"+strconv.Itoa(j)+".jet"
+				default:
+					nm, sib = genName(r), genSibling(r)
+				}
+				if via == "gettemplate" {
+					sib = "/"
+				}
+				cmd.Add(sx.L(sx.S(nm), sx.S(sib), sx.A(via)))
+			}
+			cs = append(cs, h.Case{Stream: "resolve-history", Cmd: cmd, NonTrivial: true, Tags: []string{"history"}})
+		}
 		if i%16 == 7 {
 			cs = append(cs, h.Case{Stream: "os-root", Cmd: sx.L(sx.A("osload"), sx.S(name)), NoModel: true, NonTrivial: nt, Tags: []string{"osload"}})
 		}
@@ -88,8 +114,97 @@ func genC15(r *h.Rand, tier string) []h.Case {
 	return cs
 }
 
+
+// resolveOnce looks `name` up through `via` from the referring template `sib` (or the root) on the
+// given Set and returns the first path the loader was asked for on behalf of the name.
+func resolveOnce(set *jet.Set, ld *recLoader, name, sib, via, rootHost string) (string, string) {
+	host := sib
+	var err error
+	q := strconv.Quote(name)
+	switch via {
+	case "gettemplate":
+		_, err = set.GetTemplate(name)
+	case "extends", "import":
+		ld.files[host] = "{{" + via + " " + q + "}}"
+		_, err = set.GetTemplate(host)
+	case "include", "include-computed", "exec", "includeIfExists":
+		if via == "exec" || via == "includeIfExists" {
+			host = rootHost
+		}
+		switch via {
+		case "include":
+			ld.files[host] = "{{include " + q + "}}"
+		case "include-computed":
+			ld.files[host] = "{{include n}}"
+		case "exec":
+			ld.files[host] = "{{exec(n)}}"
+		case "includeIfExists":
+			ld.files[host] = "{{includeIfExists(n)}}"
+		}
+		var t *jet.Template
+		t, err = set.GetTemplate(host)
+		if err == nil {
+			ld.take()
+			vars := jet.VarMap{}
+			vars.Set("n", name)
+			err = t.Execute(&bytes.Buffer{}, vars, nil)
+		}
+	}
+	_ = err
+	log := ld.take()
+	// skip the host's own lookup (paths equal to host)
+	first := ""
+	fail := ""
+	for _, e := range log {
+		p := e[2:]
+		if via != "gettemplate" && (via == "extends" || via == "import") && strings.HasPrefix(p, host) && first == "" && e[0] == 'E' && p == host {
+			continue
+		}
+		if via != "gettemplate" && p == host && e[0] == 'O' {
+			continue
+		}
+		if first == "" && e[0] == 'E' {
+			first = p
+		}
+		// direct oracle: everything the loader sees is canonical up to a configured extension
+		base := p
+		for _, ext := range []string{".html.jet", ".jet.html", ".jet"} {
+			if strings.HasSuffix(base, ext) && !isCanonGo(base) {
+				base = strings.TrimSuffix(base, ext)
+				break
+			}
+		}
+		if !isCanonGo(base) && !isCanonGo(p) && fail == "" {
+			fail = "loader was handed non-canonical path " + strconv.Quote(p) + " for name " + q + " via " + via
+		}
+	}
+	return first, fail
+}
+
 func init() {
 	h.RegisterProp(&h.Prop{ID: "C15", Gen: genC15})
+	// a lookup the Set answered from its cache shows no loader request: the model's path stands for it
+	h.PairNormalizers["resolve-seq"] = func(impl, model string) (string, string) {
+		ix, e1 := sx.Parse(impl)
+		mx, e2 := sx.Parse(model)
+		if e1 != nil || e2 != nil || ix.K != sx.List || mx.K != sx.List || len(ix.Xs) != len(mx.Xs) {
+			return impl, model
+		}
+		for i := range ix.Xs {
+			if ix.Xs[i].K == sx.Atom && ix.Xs[i].A == "cached" {
+				seen := false
+				for j := 0; j < i; j++ {
+					if mx.Xs[j].String() == mx.Xs[i].String() {
+						seen = true
+					}
+				}
+				if seen {
+					mx.Xs[i] = sx.A("cached")
+				}
+			}
+		}
+		return ix.String(), mx.String()
+	}
 	h.RegisterImpl("path-clean", func(cmd, _ *sx.Sexp) (*sx.Sexp, string) {
 		return sx.S(path.Clean(string(bytesArg(cmd, 1)))), ""
 	})
@@ -126,70 +241,59 @@ func init() {
 		via := atomArg(meta, 0)
 		ld := newRecLoader()
 		set := jet.NewSet(ld)
-		host := sib
-		var err error
-		q := strconv.Quote(name)
-		switch via {
-		case "gettemplate":
-			_, err = set.GetTemplate(name)
-		case "extends", "import":
-			ld.files[host] = "{{" + via + " " + q + "}}"
-			_, err = set.GetTemplate(host)
-		case "include", "include-computed", "exec", "includeIfExists":
-			if via == "exec" || via == "includeIfExists" {
-				host = string(bytesArg(meta, 1))
-			}
-			switch via {
-			case "include":
-				ld.files[host] = "{{include " + q + "}}"
-			case "include-computed":
-				ld.files[host] = "{{include n}}"
-			case "exec":
-				ld.files[host] = "{{exec(n)}}"
-			case "includeIfExists":
-				ld.files[host] = "{{includeIfExists(n)}}"
-			}
-			var t *jet.Template
-			t, err = set.GetTemplate(host)
-			if err == nil {
-				ld.take()
-				vars := jet.VarMap{}
-				vars.Set("n", name)
-				err = t.Execute(&bytes.Buffer{}, vars, nil)
-			}
-		}
-		_ = err
-		log := ld.take()
-		// skip the host's own lookup (paths equal to host)
-		first := ""
-		fail := ""
-		for _, e := range log {
-			p := e[2:]
-			if via != "gettemplate" && (via == "extends" || via == "import") && strings.HasPrefix(p, host) && first == "" && e[0] == 'E' && p == host {
-				continue
-			}
-			if via != "gettemplate" && p == host && e[0] == 'O' {
-				continue
-			}
-			if first == "" && e[0] == 'E' {
-				first = p
-			}
-			// direct oracle: everything the loader sees is canonical up to a configured extension
-			base := p
-			for _, ext := range []string{".html.jet", ".jet.html", ".jet"} {
-				if strings.HasSuffix(base, ext) && !isCanonGo(base) {
-					base = strings.TrimSuffix(base, ext)
-					break
-				}
-			}
-			if !isCanonGo(base) && !isCanonGo(p) && fail == "" {
-				fail = "loader was handed non-canonical path " + strconv.Quote(p) + " for name " + q + " via " + via
-			}
-		}
+		first, fail := resolveOnce(set, ld, name, sib, via, string(bytesArg(meta, 1)))
 		if first == "" {
 			return sx.A("no-request"), fail
 		}
 		return sx.S(first), fail
+	})
+	// (resolve-seq dev (name sib via)...): the same lookups one after the other on ONE Set - what an
+	// earlier lookup resolved to has no influence on a later one
+	h.RegisterImpl("resolve-seq", func(cmd, _ *sx.Sexp) (*sx.Sexp, string) {
+		ld := newRecLoader()
+		var set *jet.Set
+		if cmd.Xs[1].A == "true" {
+			set = jet.NewSet(ld, jet.InDevelopmentMode())
+		} else {
+			set = jet.NewSet(ld)
+		}
+		// some of the targets exist (and get cached outside development mode)
+		for _, p := range []string{"/blogpost.jet", "/blog/post.jet", "/ab.jet", "/a/b.jet"} {
+			ld.files[p] = "target " + p
+		}
+		out := sx.L()
+		fail := ""
+		asked := map[string]bool{}
+		for _, st := range cmd.Xs[2:] {
+			ld.take()
+			name, sib := string(st.Xs[0].B), string(st.Xs[1].B)
+			first, f := resolveOnce(set, ld, name, sib, st.Xs[2].A, "/h.jet")
+			if f != "" && fail == "" {
+				fail = f
+			}
+			// the rule of the property, independent of the model: absolute names are cleaned, relative ones
+			// resolve against the directory of the referring template
+			want := path.Clean(name)
+			if !path.IsAbs(name) {
+				want = path.Join(path.Dir(sib), name)
+			}
+			switch {
+			case first == "" && asked[want]:
+				out.Add(sx.A("cached")) // looked up before on this Set: may be answered from the cache
+			case first == "":
+				out.Add(sx.A("no-request"))
+				if fail == "" {
+					fail = "the loader was never asked for " + strconv.Quote(want) + " (name " + strconv.Quote(name) + " referred to from " + sib + ")"
+				}
+			default:
+				out.Add(sx.S(first))
+				if first != want && fail == "" {
+					fail = "name " + strconv.Quote(name) + " referred to from " + sib + " was looked up as " + strconv.Quote(first) + ", it resolves to " + strconv.Quote(want)
+				}
+			}
+			asked[want] = true
+		}
+		return out, fail
 	})
 	h.RegisterImpl("osload", func(cmd, _ *sx.Sexp) (*sx.Sexp, string) {
 		name := string(bytesArg(cmd, 1))
